@@ -17,7 +17,7 @@ META = ["%", '"', "'", "[", "]", "#", "=", ":", ";", "\\", "é", "日"]
 
 
 def text_values(tier, allow_semicolon=True):
-    vals = ["plain", "two words"]
+    vals = ["plain", "Plain", "PLAIN", "two words", "two  words", "Two Words"]
     chars = [c for c in META if allow_semicolon or c != ";"]
     for c in chars:
         vals += [c, c + c, c + "lead", "trail" + c, "in" + c + "fix"]
@@ -34,7 +34,8 @@ def text_values(tier, allow_semicolon=True):
     return seen
 
 
-COLOR_VALUES = ["#FF0000", "#00ff7f", "#12345678", "#ABCDEF00"]
+# consecutive values that differ only in letter case: a set must not be dropped as "unchanged"
+COLOR_VALUES = ["#FF0000", "#ff0000", "#00ff7f", "#00FF7F", "#12345678", "#ABCDEF00", "#abcdef00"]
 ORDER_VALUES = ["0", "1", "10", "007", "-1"]
 
 # (collection, property key) -> value list name
